@@ -173,6 +173,44 @@ theorem skip_invariant_deep_root {e : BEnv} {Γ : Ctx} {cfg : ParserConfig} {cla
       subst this
       simp only [parseNode, skip_invariant_deep hc h]
 
+/-! ## 2b. wildcard / any-attribute fields without a namespace list take unqualified names only -/
+
+/-- **bare_field_matches_unqualified_only**: a wildcard / any-attribute field without a namespace
+list (`XmlVar.namespaces == ()`: no `namespace` metadata, and for a Wildcard field a class
+without namespace) matches exactly the names that have no namespace. -/
+theorem bare_field_matches_unqualified_only (q : QN) : matchNamespace [] q = (targetUri q).isNone :=
+  matchNamespace_nil q
+
+/-- **qualified_unknown_for_bare_wildcards**: a namespace-qualified name that no element or
+choice of the class declares is an unknown property although the class has wildcard fields,
+when those carry no namespace list: `skip_invariant` / `strict_unknown_fails` apply to it. -/
+theorem qualified_unknown_for_bare_wildcards {m : XmlMeta} {q : QN}
+    (hb : m.wildcards.all (·.namespaces.isEmpty) = true) (hq : (targetUri q).isSome = true)
+    (he : (m.elements.find? (·.1 = q)).isNone = true)
+    (hc : m.choices.all (fun c => (c.findChoice q).isNone) = true)
+    (hw : m.wrappers.any (·.1 = q) = false) :
+    unknownFor m q = true := by
+  have hwild : m.findWildcard q = none := by simp [XmlMeta.findWildcard, findByNamespace_bare hb hq]
+  have hel : m.elements.find? (·.1 = q) = none := by simpa using he
+  have hch : m.choices.filterMap (·.findChoice q) = [] := by
+    rw [List.filterMap_eq_nil_iff]
+    intro c hcm
+    simpa using List.all_eq_true.mp hc c hcm
+  simp [unknownFor, XmlMeta.findChildren, hwild, hel, hch, hw]
+
+/-- **qualified_attr_unknown_for_bare_attributes**: likewise a namespace-qualified attribute that
+is not declared is unknown to a class whose `Attributes` fields carry no namespace list:
+`unknown_attr_policy` applies (ignored / `ParserError` / xsi names tolerated). -/
+theorem qualified_attr_unknown_for_bare_attributes {m : XmlMeta} {q : QN}
+    (hb : m.anyAttributes.all (·.namespaces.isEmpty) = true) (hq : (targetUri q).isSome = true)
+    (hf : (m.findAttribute q).isNone = true) :
+    unknownAttr m q = true := by
+  simp [unknownAttr, hf, XmlMeta.findAnyAttributes, findByNamespace_bare hb hq]
+
+/- non-vacuity: `{u}j` is unknown (element and attribute) for `B`, the unqualified `j` is taken -/
+example : unknownFor Proofs.C10.Ex.metaB ['{','u','}','j'] = true ∧ unknownFor Proofs.C10.Ex.metaB ['j'] = false
+    ∧ unknownAttr Proofs.C10.Ex.metaB ['{','u','}','j'] = true ∧ unknownAttr Proofs.C10.Ex.metaB ['j'] = false := by decide
+
 /-! ## 3. unknown elements with `fail_on_unknown_properties = True` (the default) -/
 
 /-- **strict_unknown_fails**: with the flag on, the same insertion makes the children fail
